@@ -95,7 +95,8 @@ type Task struct {
 	local    *Local
 	aborted  bool
 	goid     int64
-	lastSite int // driver-owned
+	g        uintptr // identity of the task's goroutine (getg)
+	lastSite int     // driver-owned
 }
 
 // SetLocal installs the request-local state used by subsequent yields of t.
@@ -164,6 +165,9 @@ func setCurrent(t *Task) { curTask = t }
 func setMulti(b bool) { multi = b }
 
 //go:norace
+func isMulti() bool { return multi }
+
+//go:norace
 func setActive(b bool) { active = b; nreg = 0 }
 
 //go:norace
@@ -173,7 +177,18 @@ func getSolo() *Local { return solo }
 // scheduler run (solo twin executions). Pass nil to remove it.
 //
 //go:norace
-func SetSolo(l *Local) { solo = l }
+func SetSolo(l *Local) {
+	solo = l
+	soloGoid = 0
+	if l != nil {
+		soloGoid = getg()
+	}
+}
+
+var soloGoid uintptr
+
+//go:norace
+func getSoloGoid() uintptr { return soloGoid }
 
 //go:norace
 func taskLocal(t *Task) *Local { return t.local }
@@ -215,6 +230,9 @@ func Yield(site int) {
 		if l == nil {
 			return
 		}
+		if getSoloGoid() != getg() {
+			return // a goroutine the code under test started itself: not ours to count or to stop
+		}
 		l.step(site)
 		if l.SoloCap > 0 && l.Idx > l.SoloCap {
 			panic(Abort{})
@@ -222,6 +240,12 @@ func Yield(site int) {
 		if l.CancelAt >= 0 && l.CIdx >= l.CancelAt {
 			l.deliverCancel(site)
 		}
+		return
+	}
+	if !isMulti() && getG(t) != getg() {
+		// A goroutine started by the code under test (a background worker of a middleware, say)
+		// reached a yield site. It is not a task: it runs free, like anything else the simulator
+		// does not own, and a task waiting for it is handled as blocked outside.
 		return
 	}
 	l := taskLocal(t)
@@ -246,7 +270,10 @@ func Yield(site int) {
 }
 
 //go:norace
-func setGoid(t *Task) { t.goid = goid() }
+func setGoid(t *Task) { t.goid = goid(); t.g = getg() }
+
+//go:norace
+func getG(t *Task) uintptr { return t.g }
 
 //go:norace
 func getGoid(t *Task) int64 { return t.goid }
@@ -291,6 +318,7 @@ const (
 	PolUniform
 	PolSticky
 	PolPCT
+	PolRoundRobin // lock step: after every step the next parked task (by id, cyclically) runs
 )
 
 // Config configures one scheduler run.
@@ -409,6 +437,25 @@ func Run(cfg Config, bodies []func(t *Task)) *Result {
 	live := n
 	last := -1
 	var now int64
+	accept := func(t *Task, m msg) bool {
+		res.Steps++
+		res.SiteHits[m.site]++
+		if cfg.KeepLog {
+			res.Log = append(res.Log, Step{int16(t.ID), int16(m.site)})
+		}
+		res.SchedHash = hmix(res.SchedHash, uint64(t.ID)<<16|uint64(uint16(m.site)))
+		t.lastSite = m.site
+		if m.site == -1 {
+			t.state = 2
+			live--
+		} else {
+			t.state = 0
+		}
+		if cfg.OnYield != nil {
+			cfg.OnYield(t.ID, m.site, now)
+		}
+		return true
+	}
 	recv := func(t *Task, wait time.Duration) bool {
 		if !timer.Stop() {
 			select {
@@ -417,28 +464,9 @@ func Run(cfg Config, bodies []func(t *Task)) *Result {
 			}
 		}
 		timer.Reset(wait)
-		accept := func(m msg) bool {
-			res.Steps++
-			res.SiteHits[m.site]++
-			if cfg.KeepLog {
-				res.Log = append(res.Log, Step{int16(t.ID), int16(m.site)})
-			}
-			res.SchedHash = hmix(res.SchedHash, uint64(t.ID)<<16|uint64(uint16(m.site)))
-			t.lastSite = m.site
-			if m.site == -1 {
-				t.state = 2
-				live--
-			} else {
-				t.state = 0
-			}
-			if cfg.OnYield != nil {
-				cfg.OnYield(t.ID, m.site, now)
-			}
-			return true
-		}
 		select {
 		case m := <-t.back:
-			return accept(m)
+			return accept(t, m)
 		case <-timer.C:
 			if wait == tDetect && t.state != 1 {
 				// Slow or stuck? A goroutine the runtime still reports as running or runnable is
@@ -453,7 +481,7 @@ func Run(cfg Config, bodies []func(t *Task)) *Result {
 					timer.Reset(tDetect)
 					select {
 					case m := <-t.back:
-						return accept(m)
+						return accept(t, m)
 					case <-timer.C:
 					}
 				}
@@ -505,6 +533,21 @@ func Run(cfg Config, bodies []func(t *Task)) *Result {
 				} else if cfg.Sched.Chance(cfg.SwitchPermille) {
 					k = 1 + cfg.Sched.Intn(len(cand)-1)
 				}
+			case PolRoundRobin:
+				k = -1
+				for j, id := range cand {
+					if id > last && (k < 0 || id < cand[k]) {
+						k = j
+					}
+				}
+				if k < 0 {
+					k = 0
+					for j, id := range cand {
+						if id < cand[k] {
+							k = j
+						}
+					}
+				}
 			case PolPCT:
 				for _, c := range change {
 					if c == res.Steps && last >= 0 {
@@ -553,9 +596,32 @@ func Run(cfg Config, bodies []func(t *Task)) *Result {
 			idle = 0
 			// Let every task that was blocked on a foreign lock reach its next
 			// yield before anything else is released.
-			for _, b := range tasks {
-				if b.state == 1 {
-					recv(b, tDrain)
+			// One grace period for the whole set (whichever of them the step just made has
+			// released needs real time to get to its next yield), then polls without waiting,
+			// repeated while any of them moved: with dozens of tasks queued on one foreign
+			// lock, a grace period per task and step would take minutes per run.
+			for graced := false; ; {
+				moved := false
+				for _, b := range tasks {
+					if b.state != 1 {
+						continue
+					}
+					if !graced {
+						graced = true
+						if recv(b, tDrain) {
+							moved = true
+						}
+						continue
+					}
+					select {
+					case m := <-b.back:
+						accept(b, m)
+						moved = true
+					default:
+					}
+				}
+				if !moved {
+					break
 				}
 			}
 		} else {
